@@ -188,22 +188,28 @@ func mathRad(L *LState) int {
 }
 
 func mathRandom(L *LState) int {
+	// a state that has called math.randomseed draws from its own source; other states use the
+	// source shared by the process (which is safe for concurrent use)
+	float64fn, intn := rand.Float64, rand.Intn
+	if r := L.G.random; r != nil {
+		float64fn, intn = r.Float64, r.Intn
+	}
 	switch L.GetTop() {
 	case 0:
-		L.Push(LNumber(rand.Float64()))
+		L.Push(LNumber(float64fn()))
 	case 1:
 		n := L.CheckInt(1)
-		L.Push(LNumber(rand.Intn(n) + 1))
+		L.Push(LNumber(intn(n) + 1))
 	default:
 		min := L.CheckInt(1)
 		max := L.CheckInt(2) + 1
-		L.Push(LNumber(rand.Intn(max-min) + min))
+		L.Push(LNumber(intn(max-min) + min))
 	}
 	return 1
 }
 
 func mathRandomseed(L *LState) int {
-	rand.Seed(L.CheckInt64(1))
+	L.G.random = rand.New(rand.NewSource(L.CheckInt64(1)))
 	return 0
 }
 
